@@ -107,7 +107,7 @@ class NameEval:
             return out
         if tag == 'match':
             scrut = t[1]
-            if scrut[0] == 'field' and scrut[3] == 'normalization':
+            if (scrut[0] == 'field' and scrut[3] == 'normalization') or any(p_[0] == 'ctor' and '::Normalization::' in p_[1] for p_, a_ in t[2]):
                 out = set()
                 hit = False
                 for pat, arm in t[2]:
@@ -454,7 +454,8 @@ def rule_name_agree(ctx):
                         _, sample, norm, want, got = verdict
                         obs.append(undecided('NAME-AGREE', inst, 'spelling not evaluable for `%s`/%s: %s vs %s' % (sample, norm, sorted(got), sorted(want)), loc))
     if ncarried < 2:
-        obs.append(bad('NAME-AGREE', 'floor/carried', 'fewer than 2 record sites carrying a scalar/enum type name were found (%d)' % ncarried, '', 'checker lost its anchor'))
+        # the records are filled through a helper / closure: only the (join-imprecise) grammar reading above decides them
+        obs.append(undecided('NAME-AGREE', 'carried', 'fewer than 2 record sites carrying a scalar/enum type name were found (%d): response-field references are decided on the joined grammar terms only' % ncarried, ''))
     obs.append(ok('NAME-AGREE', 'coverage', '%d definition sites, %d reference identifiers, %d (site, kind) pairs and %d carried record sites evaluated' % (sum(len(v) for v in defs.values()), len(refs), nchecked, ncarried), ''))
     return obs
 
@@ -553,4 +554,318 @@ def rule_default_literal(ctx):
                 obs.append(ok('DEFAULT-LITERAL', inst, 'enum default values are rendered as `<generated enum>::<variant>` (%d template(s))' % good, loc))
     if not found:
         obs.append(bad('DEFAULT-LITERAL', 'floor/Enum', 'the value renderer has no enum-value arm', '', 'checker lost its anchor'))
+    return obs
+
+
+# ------------------------------------------------------------------------------------------------------------------
+# STORE-TOTAL
+# ------------------------------------------------------------------------------------------------------------------
+TYPE_VECS = ('stored_objects', 'stored_interfaces', 'stored_unions', 'stored_enums', 'stored_inputs', 'stored_scalars')
+
+
+def _pos(n):
+    m = re.search(r':(\d+):(\d+)', n.get('sp', ''))
+    return (int(m.group(1)), int(m.group(2))) if m else (0, 0)
+
+
+def _direct_store(n):
+    """name of the Schema vector a `x.stored_K.push(..)` node appends to"""
+    if n.get('k') == 'mcall' and n.get('method') == 'push':
+        r = n.get('recv') or {}
+        while r.get('k') in ('ref', 'wrap'):
+            r = r['e']
+        if r.get('k') == 'field' and r.get('adt', '').endswith('schema::Schema') and r.get('name', '').startswith('stored_'):
+            return r['name']
+    return None
+
+
+@rule('STORE-TOTAL')
+def rule_store_total(ctx):
+    """Type ids are positions: a front end numbers the definitions of one kind in a first pass (`names[..] = TypeId::enum(idx)`)
+    and appends the stored records in a second one, so every definition handed to a per-definition ingest function must
+    append exactly one record, on every path (no early return, no conditional push); likewise every field of a definition
+    appends its own stored field and it is that id which enters the definition's field list."""
+    obs = []
+    cg = ctx.crate('codegen')
+    # Schema methods that append unconditionally to one stored vector
+    pushers = {}
+    for fn in cg.all_fns():
+        if fn.from_macro or '::schema::Schema::' not in norm_path(fn.path) and not norm_path(fn.path).startswith('graphql_client_codegen::schema::Schema::'):
+            continue
+        for n in fn.walk(lambda x: x['k'] == 'mcall'):
+            v = _direct_store(n)
+            if v and not [c for c in H.conditional_context(fn, n)]:
+                pushers[fn.key] = v
+    counts = {}
+    for fn in cg.all_fns():
+        np_ = norm_path(fn.path)
+        if fn.from_macro or not np_.startswith('graphql_client_codegen::schema::') or fn.key in pushers or '::Schema::' in np_:
+            continue
+        fe = np_.split('::')[2] if len(np_.split('::')) > 3 else 'schema'
+        for n in fn.walk(lambda x: x['k'] in ('mcall', 'call')):
+            vec = _direct_store(n)
+            if vec is None:
+                lf = ctx.pv.local_fns(n.get('callee')) if n.get('callee') else []
+                for f_ in lf or []:
+                    if f_.key in pushers:
+                        vec = pushers[f_.key]
+            if vec is None:
+                continue
+            cc = H.conditional_context(fn, n)
+            kinds = [c[0] for c in cc]
+            early = [x for x in fn.walk(lambda x: x['k'] == 'ret') if _pos(x) < _pos(n)]
+            inst = '%s/%s' % (short(fn.path), vec)
+            loc = n.get('sp', fn.loc)
+            if vec in TYPE_VECS:
+                counts[(fe, 'types')] = counts.get((fe, 'types'), 0) + 1
+                # selecting the definitions of one kind (a match over the definition enum, a test of `kind`) is how both
+                # passes partition the document; only other conditions make the append partial
+                def kind_select(c):
+                    if c[0] in ('for', 'loop', 'closure'):
+                        return True
+                    if c[0] == 'match':
+                        ty = (c[1].get('scrut') or c[1].get('e') or {}).get('ty', '')
+                        return any(x in ty for x in ('Definition', 'TypeKind', 'TypeExtension'))
+                    if c[0] == 'if':
+                        try:
+                            t = ctx.pv.eval(fn, c[1]['cond'], H.sym_env(fn), 0)
+                        except Exception:
+                            return False
+                        fs = TM.fields_in(t)
+                        return bool(fs) and all(f.endswith('.kind') for f in fs)
+                    return False
+                kinds = [c[0] for c in cc if not kind_select(c)]
+                if kinds:
+                    obs.append(bad('STORE-TOTAL', inst, 'the record of a definition is appended conditionally (inside %s)' % kinds, loc,
+                                   'ids assigned by position no longer name the stored record: types after the skipped one are mixed up'))
+                elif early:
+                    obs.append(bad('STORE-TOTAL', inst, 'an early `return` precedes the append: some definitions store no record', early[0].get('sp', loc),
+                                   'ids assigned by position no longer name the stored record: types after the skipped one are mixed up'))
+                else:
+                    obs.append(ok('STORE-TOTAL', inst, 'every definition handed to the function appends exactly one record', loc))
+            elif vec == 'stored_fields':
+                counts[(fe, 'fields')] = counts.get((fe, 'fields'), 0) + 1
+
+                def iter_closure(c):
+                    """a closure applied to every element of an iterator (`fields.iter().map(|f| ..)`) is a loop body; a closure of
+                    an Option / Result combinator (`unwrap_or_else(|| ..)`) runs conditionally"""
+                    if c[0] != 'closure':
+                        return False
+                    pr = fn.parent.get(id(c[1]))
+                    while pr and pr[0] is not None and pr[0].get('k') in ('wrap', 'ref'):
+                        pr = fn.parent.get(id(pr[0]))
+                    if not (pr and pr[0] is not None and pr[0].get('k') == 'mcall'):
+                        return False
+                    rty = pr[0]['recv'].get('ty', '').replace('&', '').replace('mut ', '').strip()
+                    if rty.startswith(('std::option::Option<', 'core::option::Option<', 'std::result::Result<', 'core::result::Result<')):
+                        return False
+                    return pr[0]['method'] in ('map', 'for_each', 'flat_map', 'fold', 'try_for_each', 'try_fold', 'filter_map', 'extend', 'map_while', 'scan', 'inspect')
+                loops = [c for c in cc if c[0] in ('for', 'loop') or iter_closure(c)]
+                other = [c[0] for c in cc if c[0] not in ('for', 'loop') and not iter_closure(c)]
+                skips = []
+                if loops and loops[0][0] in ('for', 'loop'):
+                    body = loops[0][1].get('body')
+                    skips = [x for x in H.walk(body) if x.get('k') in ('continue', 'break') and _pos(x) < _pos(n)] if body is not None else []
+                if other or skips or early:
+                    why = ('inside %s' % other) if other else ('after a `%s`' % (skips or early)[0].get('k'))
+                    obs.append(bad('STORE-TOTAL', inst, 'a field of a definition does not always store its own record (%s)' % why, loc,
+                                   'the field is missing or shares the record (type, deprecation) of another field'))
+                else:
+                    # the returned id must be what enters the field list
+                    par = fn.parent.get(id(n))
+                    while par and par[0] is not None and par[0].get('k') in ('wrap', 'ref'):
+                        par = fn.parent.get(id(par[0]))
+                    direct = par and par[0] is not None and par[0].get('k') == 'mcall' and par[0].get('method') in ('push', 'insert', 'extend', 'push_back')
+                    if not direct and par and par[0] is not None and par[0].get('k') in ('closure', 'block'):
+                        direct = True   # the closure's / block's value: collected by the iterator chain
+                    if direct:
+                        obs.append(ok('STORE-TOTAL', inst, 'every field stores its own record and that id enters the field list', loc))
+                    else:
+                        obs.append(undecided('STORE-TOTAL', inst, 'the id of the stored field does not go straight into a list', loc))
+    for fe in sorted({k[0] for k in counts}):
+        pass
+    fes = sorted({k[0] for k in counts})
+    if len(fes) < 2:
+        obs.append(bad('STORE-TOTAL', 'floor/front-ends', 'anchor-missing: expected two schema front ends appending records, found %s' % fes, '', 'checker lost its anchor'))
+    for fe in fes:
+        if counts.get((fe, 'types'), 0) < 6:
+            obs.append(bad('STORE-TOTAL', 'floor/%s/types' % fe, 'anchor-missing: %d appends of type records (expected one per kind, 6)' % counts.get((fe, 'types'), 0), '', 'checker lost its anchor'))
+        if counts.get((fe, 'fields'), 0) < 1:
+            obs.append(bad('STORE-TOTAL', 'floor/%s/fields' % fe, 'anchor-missing: no append of field records in this front end', '', 'checker lost its anchor'))
+    return obs
+
+
+# ------------------------------------------------------------------------------------------------------------------
+# SEL-TOTAL
+# ------------------------------------------------------------------------------------------------------------------
+def _inside(fn, node, anc):
+    if node is anc:
+        return True
+    for parent, role, child in fn.ancestors(node):
+        if parent is anc:
+            return True
+    return False
+
+
+def _nearest_loop(fn, node):
+    for parent, role, child in fn.ancestors(node):
+        if parent.get('k') in ('for', 'loop', 'while') and role == 'body':
+            return parent
+        if parent.get('k') == 'closure':
+            return None
+    return None
+
+
+@rule('SEL-TOTAL')
+def rule_sel_total(ctx):
+    """Every element of a selection set is expanded on its own: in the loops over selections of the response-type
+    expander, whether an element is skipped (`continue` / `break`) or its record (ExpandedField, ExpandedVariant ..) is
+    built may depend on the element and on the schema, never on state accumulated from the elements seen before (a
+    `seen` list, a counter): two selections of one schema field under different aliases, or the same field in two
+    fragments, are distinct response keys."""
+    from .rules_hir5 import free_locals, pat_hids
+    obs = []
+    entry = ctx.fn('codegen', 'codegen::selection::calculate_selection')
+    if entry is None:
+        return [bad('SEL-TOTAL', 'floor', 'anchor-missing: the selection expander was not found', '', 'checker lost its anchor')]
+    fl = H.Flat(ctx, entry, 2)
+    fns = [entry]
+    for owner, node, proxy in fl.entries:
+        if owner not in fns and not owner.from_macro and norm_path(owner.path).startswith('graphql_client_codegen::codegen'):
+            fns.append(owner)
+    nloops = 0
+    for fn in fns:
+        for loop in fn.walk(lambda x: x['k'] == 'for'):
+            ity = loop['iter'].get('ty', '') + loop['pat'].get('ty', '')
+            if 'Selection' not in ity:
+                continue
+            nloops += 1
+            # loop-carried state: locals declared outside the loop and mutated inside it
+            carried = {}
+            for h, srcs in fn.binds.items():
+                for s_ in srcs:
+                    if s_[0] == 'mut' and _inside(fn, s_[3], loop['body']):
+                        carried.setdefault(h, s_[3])
+                    elif s_[0] == 'assign' and _inside(fn, s_[2], loop['body']):
+                        carried.setdefault(h, s_[2])
+            inner_decl = set()
+            for st in H.walk(loop['body']):
+                if st.get('k') == 'let' and st.get('pat'):
+                    inner_decl |= pat_hids(st['pat'])
+            inner_decl |= pat_hids(loop['pat'])
+            carried = {h: n for h, n in carried.items() if h not in inner_decl}
+            sites = []
+            for n in H.walk(loop['body']):
+                k = n.get('k')
+                if k in ('continue', 'break') and _nearest_loop(fn, n) is loop:
+                    sites.append((k, n))
+                elif k == 'struct' and n.get('adt', '').split('::')[-1].startswith('Expanded') and all('e' in y for y in n.get('fields', [])):
+                    sites.append(('record ' + n['adt'].split('::')[-1], n))
+            ordn = {}
+            for what, n in sites:
+                deps = set()
+                for c in H.conditional_context(fn, n, upto=loop):
+                    if c[0] == 'if':
+                        deps |= free_locals(fn, c[1]['cond'])
+                    elif c[0] == 'match':
+                        deps |= free_locals(fn, c[1]['scrut'])
+                hit = sorted(deps & set(carried))
+                ordn[what] = ordn.get(what, 0) + 1
+                inst = '%s/loop%d/%s#%d' % (short(fn.path), nloops, what, ordn[what])
+                if hit:
+                    names = sorted({x.get('name', '?') for x in H.walk(fn.body) if x.get('k') == 'bind' and x.get('hid') in hit}) or ['a local']
+                    obs.append(bad('SEL-TOTAL', inst, 'whether a selection is expanded depends on state accumulated over earlier selections (%s)' % ', '.join(names), n.get('sp', ''),
+                                   'a later selection (another alias of the same field, the same field in a second fragment) loses its response field'))
+                else:
+                    obs.append(ok('SEL-TOTAL', inst, 'depends only on the selection itself and the schema', n.get('sp', '')))
+    if nloops < 1:
+        obs.append(bad('SEL-TOTAL', 'floor/loops', 'anchor-missing: no loop over selections in the expander', entry.loc, 'checker lost its anchor'))
+    return obs
+
+
+# ------------------------------------------------------------------------------------------------------------------
+# FMT-SELF
+# ------------------------------------------------------------------------------------------------------------------
+def _placeholders(text):
+    """('display' | 'debug' | 'other', explicit index or None) for each `{..}` of the first string literal of a macro call"""
+    m = re.search(r'"((?:[^"\\]|\\.)*)"', text, re.S)
+    if not m:
+        return None
+    s_ = m.group(1).replace('{{', '').replace('}}', '')
+    out = []
+    for ph in re.findall(r'\{([^{}]*)\}', s_):
+        arg, _, spec = ph.partition(':')
+        kind = 'debug' if '?' in spec else ('display' if spec.strip('<>^+-#0123456789.$ *') == '' else 'other')
+        out.append((kind, arg.strip() or None))
+    return out
+
+
+def _strip_refs(n):
+    while isinstance(n, dict) and n.get('k') in ('ref', 'wrap', 'unary', 'deref') and ('e' in n):
+        n = n['e']
+    return n
+
+
+@rule('FMT-SELF')
+def rule_fmt_self(ctx):
+    """`impl Display for T` / `impl Debug for T`: the body of `fmt` never formats `self` again with the same trait
+    (`write!(f, "{}", self)`, `self.to_string()`, `self.fmt(f)`): that call has the same receiver and no smaller argument,
+    so rendering such a value recurses until the stack overflows and the process aborts instead of reporting the error."""
+    obs = []
+    n_impls = 0
+    for cn, cr in sorted(ctx.prog.crates.items()):
+        for fn in cr.all_fns():
+            m = re.match(r'^<(.+) as core::fmt::(Display|Debug)>::fmt$', fn.path)
+            if not m or fn.from_macro or not fn.params:
+                continue
+            n_impls += 1
+            trait = m.group(2).lower()
+            selfh = fn.params[0].get('hid')
+            inst = '%s/%s' % (short(m.group(1)), m.group(2))
+            hits = []
+            for mac in fn.walk(lambda x: x['k'] == 'macro'):
+                name = mac['name'].split('::')[-1]
+                if name not in ('write', 'writeln', 'format', 'format_args', 'print', 'println', 'eprint', 'eprintln', 'panic'):
+                    continue
+                phs = _placeholders(mac.get('text', ''))
+                args = [fn.nodes.get(a['id']) for a in mac.get('args', []) if a.get('how') == 'span']
+                if name in ('write', 'writeln'):
+                    args = args[1:]
+                if phs is None:
+                    continue
+                seq = 0
+                for kind, explicit in phs:
+                    if explicit is not None and explicit.isdigit():
+                        idx = int(explicit)
+                    elif explicit is not None:
+                        # inline named argument `{self}` is not valid Rust; `{name}` captures a local
+                        continue
+                    else:
+                        idx = seq
+                        seq += 1
+                    if idx >= len(args) or args[idx] is None:
+                        continue
+                    a = _strip_refs(args[idx])
+                    if a.get('k') == 'path' and (a.get('res') or {}).get('hid') == selfh and kind == trait:
+                        hits.append((mac, '`%s!` formats `self` with {%s}' % (name, '' if trait == 'display' else ':?')))
+            for c in fn.walk(lambda x: x['k'] == 'mcall'):
+                r = _strip_refs(c['recv'])
+                if r.get('k') == 'path' and (r.get('res') or {}).get('hid') == selfh:
+                    if c['method'] == 'to_string' and trait == 'display':
+                        hits.append((c, '`self.to_string()` inside Display::fmt'))
+                    elif c['method'] == 'fmt' and (c.get('callee') or {}).get('path', '') == fn.path:
+                        hits.append((c, '`self.fmt(f)` calls this very function'))
+            for c in fn.walk(lambda x: x['k'] == 'call'):
+                if (c.get('callee') or {}).get('path', '') == fn.path and c.get('args'):
+                    r = _strip_refs(c['args'][0])
+                    if r.get('k') == 'path' and (r.get('res') or {}).get('hid') == selfh:
+                        hits.append((c, 'calls itself on `self`'))
+            if hits:
+                node, why = hits[0]
+                obs.append(bad('FMT-SELF', inst, why + ': unbounded recursion when this value is rendered', node.get('sp', fn.loc),
+                               'rendering the value overflows the stack (process abort) instead of printing a message'))
+            else:
+                obs.append(ok('FMT-SELF', inst, 'fmt does not format `self` with its own trait again', fn.loc))
+    if n_impls < 5:
+        obs.append(bad('FMT-SELF', 'floor', 'anchor-missing: %d hand-written Display/Debug impls found (7 confirmed by hand)' % n_impls, '', 'checker lost its anchor'))
     return obs
